@@ -66,24 +66,8 @@ def run(ctx):
         chk.ob("fetch-halts/%#05x" % d, ok, "fetching 0x00 error-stops, 0x01 stops, nothing else halts",
                "control word %#05x" % d, repr(h))
 
-    # the routine entered is selected by the IR: every IR-loading word must latch exactly the byte read,
-    # also on the edge at which that byte halts the machine (the continue key resumes from this IR)
-    nl = 0
-    for a in sorted(g.prog):
-        if not g.is_load(a):
-            continue
-        nl += 1
-        h = g.front[a].get("halts", {})
-        # (byte 0x00 error-stops; only a reset, which sets the IR itself, leaves that state: its latch is not constrained)
-        ok = h.get("0x01", {}).get("ir") == 1 and h.get("other", {}).get("ir") == list(range(2, 256))
-        chk.ob("ir-latches-fetched-byte/%#05x" % a, ok,
-               "an IR-loading word latches exactly the byte read from the bus, for every byte that can be executed (also STOP, which is resumed by the continue key), "
-               "so the routine run next is the routine of the fetched opcode", "control word %#05x" % a,
-               "IR after the edge per byte class: %s" % {k: (v.get("ir") if not isinstance(v.get("ir"), list) or len(v.get("ir")) < 6
-                                                              else "%d values %s..%s" % (len(v["ir"]), v["ir"][0], v["ir"][-1]))
-                                                         for k, v in h.items()},
-               "A4 of the clock edge per control word with the byte class pinned")
-    chk.floor("IR-loading control words", nl, 15)
+    from .. import fetchlatch
+    fetchlatch.obligations(ctx)
 
     # ---- reset state ---------------------------------------------------
     from .. import absint, step
